@@ -325,29 +325,31 @@ func Universes4(r *rand.Rand, n int) []Universe4 {
 		a, b, c int
 	}
 	specs := []spec{
-		{"chain", 255, 252, 251},
+		{"chain", 255, 252, 251}, // deep
 		{"chain", 3, 4, 5},
 		{"pairs", 12, 0, 15},
-		{"pairs", 255, 0, 255},
-		{"chain", 255, 254, 253},
-		{"pairs", 252, 251, 255},
-		{"chain", 0, 1, 255},
-		{"pairs", 254, 3, 253},
-		{"chain", 251, 248, 247},
-		{"chain", 127, 128, 129},
-		{"pairs", 255, 128, 252},
+		{"pairs", 255, 0, 255}, // deep
+		{"chain", 255, 254, 253}, // deep
+		{"pairs", 252, 251, 255}, // deep
+		{"chain", 0, 1, 255}, // deep
 		{"chain", 7, 8, 9},
-		{"chain", 253, 4, 0},
+		{"chain", 127, 128, 129},
+		{"pairs", 254, 3, 253}, // deep
+		{"chain", 251, 248, 247}, // deep
 		{"pairs", 4, 3, 5},
-		{"chain", 243, 244, 245},
-		{"pairs", 251, 252, 253},
 		{"chain", 1, 2, 3},
 		{"pairs", 0, 1, 2},
+		{"chain", 63, 64, 65},
+		{"chain", 253, 4, 0}, // deep
+		{"pairs", 16, 15, 17},
+		{"chain", 243, 244, 245}, // deep
+		{"chain", 31, 32, 33},
+		{"pairs", 255, 128, 252}, // deep
+		{"pairs", 251, 252, 253},
 		{"chain", 255, 127, 3},
 		{"pairs", 248, 247, 249},
 		{"chain", 252, 253, 255},
 		{"pairs", 255, 255, 254},
-		{"chain", 63, 64, 65},
 	}
 	var out []Universe4
 	for i := 0; i < n && i < len(specs); i++ {
